@@ -157,7 +157,9 @@ def build(spec):
         meta = {'fragile_title': fragile_title, 'title_class': tcls, 'ref': txt}
         pos = q['pos']
         if q.get('missing'):
-            qs.append(Q(f'=SUM({txt})' if r['kind'] != 'cell' else f'={txt}', ANY_ERR, 'missing-title', True, tags + ['missing-title'], meta={**meta, 'missing': True}))
+            forms_ = [f'=SUM({txt})' if r['kind'] != 'cell' else f'={txt}', f'=IFERROR({txt},7)' if r['kind'] == 'cell' else f'=IFERROR(SUM({txt}),7)',
+                      f'=IF(1,2,COUNT({txt}))', f'=IFERROR(INDEX({txt},1,1)+1,0)' if r['kind'] != 'cell' else f'=IFERROR(7,{txt})']
+            qs.append(Q(forms_[q.get('pick', 0) % len(forms_)], ANY_ERR, 'missing-title', True, tags + ['missing-title'], meta={**meta, 'missing': True}))
             continue
         if pos == 'bare':
             if r['kind'] == 'cell':
@@ -284,7 +286,7 @@ def run_case(spec):
 # ------------------------------------------------------------------ generator
 
 TITLES = {
-    'ident': ['Data', 'Sheet2', 'x_1', 'Лист1'.encode().decode(), 'Summary', 'T'],
+    'ident': ['Data', 'Sheet2', 'x_1', 'Лист1'.encode().decode(), 'Summary', 'T', 'ORDERS', 'SUMMARY', 'INDEX_2024', 'IF', 'DATE', 'MAXIMUM', 'TRUE', 'VALUE2', 'DAYS'],
     'unicode': ['Данные', 'Übersicht', '数据'],
     'cell-like': ['A1', 'XFD5', 'AB12'],
     'spaces': ['My Sheet', 'Q1 2024 plan', ' lead'],
@@ -320,7 +322,8 @@ def strategy():
             sheets[e]['empty'] = True        # a sheet without any cell shifts nothing: later sheets keep their own cells
         if far_mode:
             fs = draw(st.integers(0, n - 1).filter(lambda i: not sheets[i].get('empty')))
-            fc = draw(st.sampled_from([27, 52, 53, 702, 703, 1000, 16383, 16384, draw(st.integers(30, 16384))]))
+            keyword_cols = [wbk.column_index_from_string(x) for x in ('OR', 'IF', 'AND', 'DAY', 'MAX', 'MIN', 'MID', 'SUM', 'IFS', 'ORD', 'IFA')]
+            fc = draw(st.sampled_from([27, 52, 53, 702, 703, 1000, 16383, 16384, draw(st.integers(30, 16384))] + keyword_cols))
             fr = draw(st.sampled_from([100, 1000, 9999, 10000, 99999, draw(st.integers(31, 99999))]))
             sheets[fs]['far'] = [[fc, fr], [fc - 1, fr], [fc, fr - 1]]
         queries = []
@@ -378,7 +381,7 @@ def strategy():
             for _ in range(2):
                 queries.append({'ref': {'sheet': 0, 'quoted': draw(st.booleans()), 'kind': draw(st.sampled_from(['cell', 'area'])), 'c0': 1, 'r0': 1,
                                         'c1': 2, 'r1': 2, 'd': [False] * 4}, 'pos': 'bare',
-                                'missing': draw(st.sampled_from(['Nope', 'Sheet99', 'data', 'DATA ', 'T2'])), 'pick': 0, 'pick2': 0, 'index_at': [], 'shift': 0})
+                                'missing': draw(st.sampled_from(['Nope', 'Sheet99', 'data', 'DATA ', 'T2'])), 'pick': draw(st.integers(0, 3)), 'pick2': 0, 'index_at': [], 'shift': 0})
         return {'sheets': sheets, 'host': host, 'queries': queries, 'override_blanks': (not far_mode) and draw(st.integers(0, 3)) == 0}
     return spec().filter(lambda s: all(q.get('missing') is None or q['missing'].lower() not in {sh['title'].lower() for sh in s['sheets']} for q in s['queries']))
 
